@@ -16,4 +16,4 @@ require (
 	rsc.io/tmplfunc v0.0.3 // indirect
 )
 
-replace github.com/consensys/gnark-crypto => /var/tmp/gv-w/c17perm/repo
+replace github.com/consensys/gnark-crypto => /repo
